@@ -10,7 +10,18 @@ Every harness record is one operation on one of the pure functions of the model 
 `werr`, `idecho`, `sse.*`, `c.*`, `r.*`) or one label of the `ioConn` machine (`io.*`).  The driver
 computes the model's observation in the same canonical token form and evaluates the property
 monitors on the IMPLEMENTATION's observation.  Monitors are selected by the first command-line
-argument (`C19` default, `C02`), clause texts carry the property id.
+argument (`C19` default, `C02`), clause texts carry the property id; further arguments name
+properties the same stream serves as well (`C02 C03`: the batch stream also judges the order in which
+`Read` hands the messages of a batch out, clause prefix `C03:`).
+
+Frame ops (`io.feed`, `io.rb` = readBatch alone, `h.post <stateless|stateful|sse>` = the frame as a
+POST body, `live.io <old|new>` = a real server session on an io transport, `live.cli <json|sse>` = a
+real streamable client answered with the frame) take a JSON value and an optional trailing layout
+token `L<k>` (white space the harness put into the text; not modelled).  An implementation
+observation `panic` / `hang` of any of them is a `decode_total` violation naming the reader and the
+frame.  `r.fuzz` / `r.case` are the structured decode fuzz of the protocol types (no panic; a member
+name in another case is ignored wherever a foreign member name is), `r.irm` compares
+`InputRequestMap.UnmarshalJSON` with `decodeInputRequests`.
 
 Token forms (blank-separated): JVal `z t f i<int> d<m>e<e> s<hex> a[ … ] o{ <hexkey> v … }`
 (object members sorted by key; a string or a member name may instead be `q<hex of the literal's body>`:
